@@ -43,6 +43,37 @@ def log(msg):
         sys.stderr.flush()
 
 
+# every tool runs in its own process group; the groups are killed when the runner exits or is terminated, so that no
+# solver (cbmc spawns cvc5/z3 as grandchildren) outlives its check
+_pgids = set()
+_pg_lock = threading.Lock()
+
+
+def _kill_all_groups(*_a):
+    with _pg_lock:
+        for pg in list(_pgids):
+            try:
+                os.killpg(pg, signal.SIGKILL)
+            except Exception:
+                pass
+        _pgids.clear()
+
+
+def _on_term(signum, frame):
+    _kill_all_groups()
+    os._exit(143)
+
+
+import atexit
+atexit.register(_kill_all_groups)
+try:
+    signal.signal(signal.SIGTERM, _on_term)
+    signal.signal(signal.SIGINT, _on_term)
+    signal.signal(signal.SIGHUP, _on_term)
+except Exception:
+    pass
+
+
 class Undecided(Exception):
     """Tool error / time-out / anchor miss: the check cannot decide (exit 2)."""
 
@@ -180,6 +211,8 @@ def run_tool(cmd, timeout, what, ok_codes=(0,), stdout_path=None, limit_mem=Fals
         try:
             out = open(stdout_path, "w") if stdout_path else subprocess.PIPE
             p = subprocess.Popen(cmd, stdout=out, stderr=subprocess.PIPE, preexec_fn=_limits if limit_mem else os.setsid)
+            with _pg_lock:
+                _pgids.add(p.pid)
             try:
                 so, se = p.communicate(timeout=timeout)
             except subprocess.TimeoutExpired:
@@ -187,6 +220,8 @@ def run_tool(cmd, timeout, what, ok_codes=(0,), stdout_path=None, limit_mem=Fals
                 p.communicate()
                 raise Undecided("%s: timed out after %ss" % (what, timeout))
             finally:
+                with _pg_lock:
+                    _pgids.discard(p.pid)
                 if stdout_path:
                     out.close()
         except OSError as e:
@@ -398,6 +433,8 @@ def _portfolio(g, binary, backends, timeout, props=None, trace=False, tagsuffix=
         fo = open(outp, "w")
         fe = open(errp, "w")
         p = subprocess.Popen(cmd, stdout=fo, stderr=fe, preexec_fn=_limits, cwd=wd)
+        with _pg_lock:
+            _pgids.add(p.pid)
         procs.append({"be": be, "p": p, "out": outp, "fo": fo, "fe": fe, "cmd": cmd, "done": False, "released": False})
     winner = None
     reasons = []
@@ -412,6 +449,8 @@ def _portfolio(g, binary, backends, timeout, props=None, trace=False, tagsuffix=
                     alive = True
                     continue
                 pr["done"] = True
+                with _pg_lock:
+                    _pgids.discard(pr["p"].pid)
                 pr["fo"].close()
                 pr["fe"].close()
                 if not pr["released"]:
@@ -444,6 +483,8 @@ def _portfolio(g, binary, backends, timeout, props=None, trace=False, tagsuffix=
                 except Exception:
                     pass
                 pr["p"].wait()
+                with _pg_lock:
+                    _pgids.discard(pr["p"].pid)
                 pr["fo"].close()
                 pr["fe"].close()
             if not pr["released"]:
